@@ -14,7 +14,7 @@
 (* commit for finding F1); Repaired = FALSE keeps the pinned, defective    *)
 (* cursor update so that TLC can still exhibit the double placement.       *)
 (***************************************************************************)
-EXTENDS Naturals, Sequences, FiniteSets, TLC, Json
+EXTENDS Naturals, Sequences, FiniteSets, TLC, Json, BatchingOps
 
 CONSTANTS N,          \* number of available (not submitted) jobs, named 1..N in listing order
           Ext,        \* "some unfinished job outside the list" (model value / number 0)
@@ -145,6 +145,13 @@ BlockedReportSound == pc = "done" => \A j \in blockedOut : rem[j] # {} /\ j \not
 
 \* the assertion at the end of _submit_batches / in Cluster._update_job_status
 SubmittedListConsistent == pc = "done" => blockedOut \cap AllBatched = {}
+
+\* the closed form used by JadeImpl agrees with the step-wise run (checked when a _make_batch call ends)
+P == [rem |-> rem, est |-> est, tb |-> timeBased, tryadd |-> tryAdd, cap |-> cap, size |-> size, repaired |-> Repaired]
+ClosedFormAgrees ==
+  pc = "emit" => LET r == MakeBatch(P, avail)
+                 IN /\ r.batch = cur /\ r.blocked = blk
+                    /\ r.rest = (IF hi >= Len(avail) THEN <<>> ELSE SubSeq(avail, hi + 1, Len(avail)))
 
 Terminates == <>(pc = "done")
 
